@@ -771,7 +771,27 @@ def r54(orig, rule):
             '{ __best = __c; } } None => { break; } } } __best }' % e)
 
 
+def r55(orig, rule):
+    # for &X in E {   ->  for __rX in E.iter() { let X = *__rX;      (E a reference to a slice / Vec of Copy items: IntoIterator for &[T] is
+    #                                                                  iter(); the reference pattern &X copies the item out)
+    s = norm(orig)
+    m = _m(r'for & (%s) in (%s) \{' % (ID, ID), s)
+    x, e = m.groups()
+    return 'for __r%s in %s.iter() { let %s = *__r%s;' % (x, e, x, x)
+
+
+def r56(orig, rule):
+    # E.and_then(|X| B)   ->   (match E { Some(X) => B, None => None })        (definition of Option::and_then)
+    s = norm(orig)
+    m = _m(r'(.*?)(%s) \. and_then \( \| (%s) \| (.+?) \) (\{|;)' % (ID, ID), s)
+    pre, e, x, b, tail = m.groups()
+    if b.count('(') != b.count(')'):
+        raise NoMatch('closure body not delimited')
+    return '%s(match %s { Some(%s) => %s, None => None }) %s' % (pre, e, x, b, tail)
+
+
 GENERATORS = {
+    'R55': r55, 'R56': r56,
     'R54': r54,
     'R53': r53,
     'R52': r52,
